@@ -149,6 +149,8 @@ def run(ctx):
 
 def maps_rules(ctx, P="C03"):
     fv = ctx.need(P + ".K1", MAPS)
+    if fv is not None:
+        rule_pure_function(ctx, P + ".K1", fv, "kmer_pos_maps")
     if fv is None:
         return
     kp = param_index(fv, "ksize")
